@@ -46,10 +46,20 @@ fn universe16() -> Vec<Spec> {
         for a in [0u8, 1] {
             // an author must be able to hold entries with different timestamps (child newer
             // than its parent, unrelated keys), equal timestamps, and deletion markers
-            v.push(Spec::new(d, a, b"ab", 2, Val::Y));
-            v.push(Spec::new(d, a, b"a", 1, Val::X));
-            v.push(Spec::new(d, a, b"b", 3, Val::Del));
-            v.push(Spec::new(d, a, b"", 1, Val::X));
+            // and the author's newest entry must not always sit at its greatest key (records are
+            // scanned in key order): author 0 has its newest entry at the greatest key, author 1
+            // at a small key
+            if a == 0 {
+                v.push(Spec::new(d, a, b"ab", 2, Val::Y));
+                v.push(Spec::new(d, a, b"a", 1, Val::X));
+                v.push(Spec::new(d, a, b"b", 3, Val::Del));
+                v.push(Spec::new(d, a, b"", 1, Val::X));
+            } else {
+                v.push(Spec::new(d, a, b"ab", 3, Val::Y));
+                v.push(Spec::new(d, a, b"a", 2, Val::Del));
+                v.push(Spec::new(d, a, b"b", 1, Val::X));
+                v.push(Spec::new(d, a, b"c", 2, Val::X));
+            }
         }
     }
     v
